@@ -337,12 +337,12 @@ def short(diffs):
 
 
 def examine(script, dss, results):
-    """-> (status, kind, text): status in ok | violation | invalid (the renamed program fails: not a program of the space)
+    """-> (status, kind, text, oracles used): status in ok | violation | invalid (the renamed program fails: not a program of the space)
     | uncalibrated (reference evaluator and engine disagree on the renamed program)"""
     nscript, ndss = neutral_text(script), [neutral_ds(d) for d in dss]
     base = refbase.run(nscript, ndss)
     if base[0] == "err":
-        return "invalid", None, "the renamed program %s fails: %s %s %s" % (nscript, base[2], base[3], base[4][:160])
+        return "invalid", None, "the renamed program %s fails: %s %s %s" % (nscript, base[2], base[3], base[4][:160]), "o1"
     sem = refbase.semantic(script, dss)
     out = refbase.run(script, dss)
     o4, o4_used = None, False
@@ -352,13 +352,17 @@ def examine(script, dss, results):
         for n in results:
             d = judge_dataset(base[1][NEUTRAL.get(n, n)], o4n[NEUTRAL.get(n, n)])
             if d:
-                return "uncalibrated", None, "reference evaluator disagrees with the engine on the renamed program %s: %s" % (nscript, short(d))
+                return "uncalibrated", None, "reference evaluator disagrees with the engine on the renamed program %s: %s" % (nscript, short(d)), "o1+o4"
         o4_used = True
     except R.NotModelled:
         o4 = None
     except (R.IllTyped, R.RuntimeErr) as e:
-        return "uncalibrated", None, "reference evaluator rejects %s: %r" % (script, e)
+        return "uncalibrated", None, "reference evaluator rejects %s: %r" % (script, e), "o1+o4"
     tag = "o1+o4" if o4_used else "o1"
+    return _verdict(script, nscript, dss, results, sem, out, base, o4) + (tag,)
+
+
+def _verdict(script, nscript, dss, results, sem, out, base, o4):
     if sem[0] == "err":
         k = ("raw-error:%s" % sem[2]) if sem[1] == "raw" else ("vtl-error:%s" % sem[3])
         return "violation", k, "semantic_analysis raised %s %s (%s) although the renamed program is accepted" % (sem[2], sem[3], sem[4][:160])
@@ -387,13 +391,14 @@ def examine(script, dss, results):
             diffs = judge_dataset(out[1][n], o4[n])
             if diffs:
                 return "violation", kind_of(diffs), "result %s differs from the reference evaluator's: %s" % (n, short(diffs))
-    return "ok", tag, None
+    return "ok", None, None
 
 
 def run_programs(batch, rec):
     harness.boot()
     for p in batch:
-        status, kind, text = examine(p["script"], p["dss"], p["results"])
+        status, kind, text, tag = examine(p["script"], p["dss"], p["results"])
+        rec.count("o4_applied" if tag == "o1+o4" else "o1_only")
         ckey = (p["context"], p["origin"], p["collide"])
         if status == "invalid":
             rec.tool_error(text)
@@ -402,8 +407,7 @@ def run_programs(batch, rec):
             rec.tool_error("oracle not calibrated: " + text)
             continue
         if status == "ok":
-            rec.case(ckey + ("agree",), "agree-" + kind, sample={"script": p["script"], "origin": p["origin"], "collide": p["collide"]})
-            rec.count("o4_applied" if kind == "o1+o4" else "o1_only")
+            rec.case(ckey + ("agree",), "agree-" + tag, sample={"script": p["script"], "origin": p["origin"], "collide": p["collide"]})
             continue
         rec.case(ckey + (kind,), kind)
         key = "C29:%s/%s:%s:%s" % (p["context"], p["origin"], p["collide"], kind)
@@ -435,12 +439,12 @@ class Check:
             if need not in contexts:
                 rec.tool_error("non-vacuity: no program in context %s" % need)
         harness.pmap(run_programs, list(harness.chunks(ps, 12)), rec)
-        if not rec.counters.get("o4_applied") and not rec.violations:
+        if not rec.counters.get("o4_applied"):
             rec.tool_error("non-vacuity: the reference evaluator was never applicable")
         return {"exhaustive": True, "programs": len(ps), "contexts": len({p["context"] for p in ps}),
                 "o4_applied": rec.counters.get("o4_applied", 0)}
 
     def replay(self, data):
         harness.boot()
-        status, kind, text = examine(data["script"], [ds_from_json(j) for j in data["datasets"]], data["results"])
+        status, kind, text, tag = examine(data["script"], [ds_from_json(j) for j in data["datasets"]], data["results"])
         return status == "violation"
